@@ -26,3 +26,15 @@ Theorem C08_print_canon :
   forall v, nodup_keys v -> forall lvl, print_json_at lvl v = print_json_at lvl (canon v).
 Proof. exact print_json_canon. Qed.
 Print Assumptions C08_print_canon.
+
+(* lists derived from unordered collections: an image cell is written as its images sorted by path, whatever the
+   iteration order of the underlying set (distinct paths per cell, as the property quantifies) *)
+From PM Require Import Model.Common Model.Images Proofs.SortProofs.
+
+Theorem C08_cell_order_irrelevant :
+  forall imgs imgs' ds,
+  Permutation imgs imgs' ->
+  mapM (fun im => ser_image (snd im)) imgs = Ok ds -> NoDup (map path_key ds) ->
+  ser_cell imgs = ser_cell imgs'.
+Proof. exact ser_cell_perm. Qed.
+Print Assumptions C08_cell_order_irrelevant.
